@@ -138,6 +138,7 @@ type Engine struct {
 	Settled     []*fox.Txn
 	lastRemoved []Key
 	noIter      bool
+	LastKey     Key // key of the last successful insert or update
 }
 
 // New creates an engine on a fresh router.
@@ -389,6 +390,7 @@ func (e *Engine) applyInsert(op Op) error {
 			return fmt.Errorf("%s %s %q: returned route %v", op.Kind, op.Method, op.Pattern, rte)
 		}
 		m[k] = &Entry{Route: rte, Seq: seq, TS: tsOf(op)}
+		e.LastKey = k
 		for _, rk := range e.lastRemoved {
 			if rk.M == k.M && commonPrefix(rk.P, k.P) >= 2 {
 				e.Stat["nontrivial:insert-after-removal-sharing-prefix"]++
@@ -447,6 +449,7 @@ func (e *Engine) applyUpdate(op Op) error {
 			return fmt.Errorf("%s %s %q: returned route is not a new route for that pattern", op.Kind, op.Method, op.Pattern)
 		}
 		m[k] = &Entry{Route: rte, Seq: seq, TS: tsOf(op)}
+		e.LastKey = k
 	}
 	return nil
 }
